@@ -27,7 +27,7 @@ UNSUPPORTED = ("uniform", "triangular", "sample", "shuffle", "choices", "randbyt
                "normalvariate", "lognormvariate", "expovariate", "vonmisesvariate",
                "gammavariate", "gauss", "betavariate", "paretovariate", "weibullvariate",
                "binomialvariate")
-MAX_DRAWS = 16
+MAX_DRAWS = 48
 FLOAT_SAMPLES = (0.0, 2.0 ** -53, 0.25, 0.5, 0.75, 1.0 - 2.0 ** -53)
 BITS_COMPLETE = 12
 
